@@ -506,6 +506,15 @@ def check(plan):
                         if S1["files"].get(mp) != bs["files"].get(mp):
                             viol("C16", "isolation",
                                  "output %r differs from the run on the tree without the failing files %s" % (mp, sorted(nop)))
+        # ---- C12: an input that is not valid UTF-8 but was processed anyway (not reported) must still keep its lines
+        for p in visible:
+            if texts[p] is None and not reported[p] and finished and p in order:
+                got = S1["files"].get(mirror[p])
+                if got is not None:
+                    ni, no = S0["files"][p].count(b"\n"), got.count(b"\n")
+                    if ni != no:
+                        viol("C12", "line-count", "file %r (undecodable bytes, processed without being reported): %d input "
+                             "lines, %d output lines" % (p, ni, no))
         # ---- C12 structure for completed files ------------------------------------
         for p in visible:
             if status.get(p) != "complete":
@@ -679,7 +688,16 @@ def extract(line, out_line, secrets, collapse_ws):
         else:
             meta = s[2] if len(s) > 2 else {}
             pre, post = re.escape(meta.get("pre", "")), re.escape(meta.get("post", ""))
-            rx += pre + r"(\S+?)" + post if s[0] == "sec" else r"(\S+?)"
+            if s[0] == "sec":
+                rx += pre + r"(\S+?)" + post
+            elif s[0] in ("a4", "k4"):
+                rx += r"((?<![0-9.])[0-9]+(?:\.[0-9]+){3}(?:/[0-9]{1,3})?(?![0-9.]))"
+            elif s[0] == "a6":
+                rx += r"((?<![0-9A-Fa-f:])[0-9A-Fa-f:]*:[0-9A-Fa-f:.]*(?:/[0-9]{1,3})?(?![0-9A-Fa-f:]))"
+            elif s[0] == "as":
+                rx += r"((?<![0-9])[0-9]+(?![0-9]))"
+            else:
+                rx += r"(\S+?)"
             groups.append(s)
     m = re.fullmatch(rx, out_line.rstrip("\r"), re.S)
     if not m:
